@@ -590,7 +590,7 @@ impl Suite for Asm {
                 }
                 text.push_str(ASM_LINES[rng.gen_range(0..ASM_LINES.len())]);
             }
-            regions.push((start, text.len()));
+            regions.push((start, text.len(), false));
             match form {
                 0 | 1 => text.push_str(&format!("{nl}end;{nl}")),
                 2 => text.push_str(&format!("{nl}   end ;{nl}  Y:=2;{nl}end;{nl}")),
